@@ -438,8 +438,15 @@ def _enabled(cons_enabled, timer_enabled, prods_enabled):
     return en
 
 
-def run_threads(P, C, sched, extend=None, max_steps=400):
-    """Run the real SimpleClient under the baton scheduler."""
+def _call_over(labels):
+    return any(l[0] in ('Ret', 'Raise', 'Sent') for l in labels)
+
+
+def run_threads(P, C, sched, extend=None, max_steps=400, macro=False):
+    """Run the real SimpleClient under the baton scheduler.  With macro=True every choice is
+    carried on to the end of the asyncio-granularity step (a producer finishes its handler
+    invocation; the application task runs until it is registered in a wait or its call is
+    over), so that the same schedule means the same thing for both classes."""
     import socketio
     res = RunResult()
     ctl = ThreadCtl()
@@ -477,14 +484,21 @@ def run_threads(P, C, sched, extend=None, max_steps=400):
             res.schedule.append(ch)
             if ch not in en:
                 res.trace.append([])
-            elif ch == 0:
-                res.trace.append(ctl.resume(cons))
-            elif ch == 1:
-                cons.wake = 'timeout'
-                cons.wait_ev.waiters.remove(cons)
-                res.trace.append(ctl.resume(cons))
+            elif ch in (0, 1):
+                if ch == 1:
+                    cons.wake = 'timeout'
+                    cons.wait_ev.waiters.remove(cons)
+                labels = list(ctl.resume(cons))
+                while macro and cons.state == 'ready' and not _call_over(labels) \
+                        and len(labels) < MAX_LABELS_PER_STEP:
+                    labels += ctl.resume(cons)
+                res.trace.append(labels)
             else:
-                res.trace.append(ctl.resume(prods[ch - 2]))
+                t = prods[ch - 2]
+                labels = list(ctl.resume(t))
+                while macro and t.state == 'ready' and ('Done',) not in labels:
+                    labels += ctl.resume(t)
+                res.trace.append(labels)
             k += 1
         else:
             res.error = 'step bound exceeded'
